@@ -366,7 +366,7 @@ def dynamic_crosscheck(ctx, facts, tles):
                     o = mk(tle)
                     if state != "fresh":
                         warm_up(o)
-                    if state == "time_only":
+                    if state == "time_only" and hasattr(o.orbit_elements, "an_period"):
                         del o.orbit_elements.an_period
                     pre_kep = None
                     with AttrLog() as al:
@@ -670,13 +670,17 @@ def run(ctx):
     fresh = Fresh()
     del TIMEOUTS[:]
     HANGING.clear()
-    try:
-        if facts is not None:
-            dynamic_crosscheck(ctx, facts, tles[:ctx.n(2, 4)])
-        history_oracle(ctx, tles, fresh, ctx.n(60, 600))
-        scheduler_oracle(ctx, tles, fresh)
-    except TooManyTimeouts:
-        pass
+    phases = [lambda: history_oracle(ctx, tles, fresh, ctx.n(60, 600)), lambda: scheduler_oracle(ctx, tles, fresh)]
+    if facts is not None:
+        phases.insert(0, lambda: dynamic_crosscheck(ctx, facts, tles[:ctx.n(2, 4)]))
+    for phase in phases:
+        try:
+            phase()
+        except TooManyTimeouts:
+            break
+        except Exception as e:      # a phase that cannot complete is a broken tie; the other phases still run
+            ctx.proof_failures.append({"theorem": "(check machinery)", "error": "%s: %s" % (type(e).__name__, e),
+                                       "trace": traceback.format_exc()[-1200:]})
     if TIMEOUTS:
         ctx.corr_fail("M_Purity: every query is a finite program (terminates) vs Orbital queries that do not return",
                       {"tle": list(tles[0]), "calls_without_result_after_20s": TIMEOUTS[:3]})
